@@ -345,6 +345,8 @@ class CallMixin:
             return self.map_to_list(v, st, spec)
         if isinstance(v, PyVal) and v.kind == "listof":
             return v.value
+        if isinstance(v, PyVal) and v.kind == "setof":
+            return self.set_to_list(v.value, st)
         raise Unsupported("list(%r)" % (v,))
 
     def bi_dict(self, args, kwargs, st, spec):
@@ -360,6 +362,59 @@ class CallMixin:
     def bi_np_round(self, args, kwargs, st, spec):
         d = kwargs.get("decimals", args[1] if len(args) > 1 else mk_int(0))
         return self.bi_round([args[0], d], {}, st, spec)
+
+    def bi_set(self, args, kwargs, st, spec):
+        if len(args) != 1 or not is_sv(args[0]):
+            raise Unsupported("set() of %r" % (args,))
+        return PyVal("setof", value=args[0])
+
+    def set_to_list(self, src, st):
+        """list(set(L)) for a list of objects with contracted __eq__ / __hash__ (DESIGN.md 4.1): the kept elements U are
+        elements of L at pairwise distinct positions (witness _set_src), every element of L is represented by a kept element
+        that is the same object or has the same hash and compares equal (witness _set_rep), kept elements are pairwise not
+        duplicates in that sense; the order of U is arbitrary."""
+        e, arr, off, n = self.seq_of(src, st)
+        if e.kind != "ref":
+            raise Unsupported("set() of non-objects")
+        ceq = self.reg.method_contract(e.arg, "__eq__")
+        chash = self.reg.method_contract(e.arg, "__hash__")
+        if not (ceq and chash and ceq.pure and chash.pure):
+            raise Unsupported("set() needs pure __eq__ / __hash__ contracts for %s" % e.arg)
+        ctx = self.ctx
+        U = ctx.fresh("setlist", z3.ArraySort(z3.IntSort(), z3.IntSort()))
+        m = ctx.fresh("setlen", z3.IntSort())
+        srcof = ctx.fresh("setsrc", z3.ArraySort(z3.IntSort(), z3.IntSort()))
+        rep = ctx.fresh("setrep", z3.ArraySort(z3.IntSort(), z3.IntSort()))
+        i, i2, j = ctx.fresh("i", z3.IntSort()), ctx.fresh("i2", z3.IntSort()), ctx.fresh("j", z3.IntSort())
+        at = lambda t: arr[_ix(t, off)]
+
+        def dup(a, b):
+            st.qdepth += 1
+            st.qids.update((i.get_id(), i2.get_id(), j.get_id()))
+            try:
+                ha = self.apply_contract(chash, [SV(e, a)], {}, st, "__hash__", spec=True)
+                hb = self.apply_contract(chash, [SV(e, b)], {}, st, "__hash__", spec=True)
+                eq = self.truthy(self.apply_contract(ceq, [SV(e, a), SV(e, b)], {}, st, "__eq__", spec=True), st)
+            finally:
+                st.qdepth -= 1
+                st.qids.difference_update((i.get_id(), i2.get_id(), j.get_id()))
+            return z3.And(ha.t == hb.t, z3.Or(a == b, eq))
+        st.assume(z3.And(0 <= m, m <= n, z3.Implies(n > 0, m >= 1)))
+        st.assume(z3.ForAll([i], z3.Implies(z3.And(0 <= i, i < m),
+                                            z3.And(0 <= srcof[i], srcof[i] < n, U[i] == at(srcof[i]), U[i] >= 1, U[i] < st.alloc())),
+                            patterns=[U[i]], qid="set_src"))
+        st.assume(z3.ForAll([i, i2], z3.Implies(z3.And(0 <= i, i < m, 0 <= i2, i2 < m, i != i2),
+                                                z3.And(srcof[i] != srcof[i2], z3.Not(dup(U[i], U[i2])))),
+                            patterns=[z3.MultiPattern(U[i], U[i2])], qid="set_nodup"))
+        st.assume(z3.ForAll([j], z3.Implies(z3.And(0 <= j, j < n),
+                                            z3.And(0 <= rep[j], rep[j] < m, z3.Or(U[rep[j]] == at(j), dup(U[rep[j]], at(j))))),
+                            patterns=[rep[j]] + ([at(j)] if pattern_ok(arr) and z3.is_int_value(off) and off.as_long() == 0 else []),
+                            qid="set_rep"))
+        self.ctx.models_used.add("list(set(L)): hash-set de-duplication through the element class's __eq__/__hash__ contracts "
+                                 "(kept elements at distinct positions of L, every element represented, kept pairwise non-duplicates, arbitrary order)")
+        st.env["_set_src"] = mk_seq(INT, srcof, z3.IntVal(0), m)
+        st.env["_set_rep"] = mk_seq(INT, rep, z3.IntVal(0), n)
+        return self.new_list(e, U, m, st)
 
     def bi_tuple(self, args, kwargs, st, spec):
         v = args[0]
@@ -566,7 +621,7 @@ class CallMixin:
                 order = (x >= y) if reverse else (x <= y)
             elif cmp is not None:
                 c = self.apply(cmp, [SV(e, R[i]), SV(e, R[j])], {}, st, True)
-                order = self.to_int(c) <= 0
+                order = (self.to_int(c) >= 0) if reverse else (self.to_int(c) <= 0)
             else:
                 ty, x, y = self.num_pair(SV(e, R[i]), SV(e, R[j]))
                 order = (x >= y) if reverse else (x <= y)
@@ -1211,6 +1266,10 @@ class CallMixin:
 
     def spec_empty_int_seq(self, node, st):
         return mk_seq(INT, z3.K(z3.IntSort(), z3.IntVal(0)), z3.IntVal(0), z3.IntVal(0))
+
+    def spec_empty_ref_seq(self, node, st):
+        cls = node.args[0].value
+        return mk_seq(Ref(cls), z3.K(z3.IntSort(), z3.IntVal(0)), z3.IntVal(0), z3.IntVal(0))
 
     def spec_seq_append(self, node, st):
         """seq_append(s, v): the value sequence s extended by v (ghost sequences)"""
